@@ -648,6 +648,13 @@ static inline bool tick()
    return g_stop;
 }
 
+// deadline check on every n-th call (independent of the loop index, which is correlated with the shard number)
+static inline bool tick_every( const unsigned n )
+{
+   static unsigned long calls = 0;
+   return ( ++calls % n == 0 ) ? tick() : g_stop;
+}
+
 static const std::string HEX22 = "0123456789abcdefABCDEF";
 
 // all strings of length len over an alphabet (the shard's share)
@@ -704,7 +711,7 @@ static void t1_append()
             if( cp >= 0x80 && ( cp & 0x7 ) == 0 ) nontrivial( vf::mix( 11, cp ) );
          }
       }
-      if( ( hi & 0xFF ) == 0 && tick() ) return;
+      if( tick_every( 16 ) ) return;
    }
    vf::count( "append.all_2^32_arguments_done", 1 );
 }
@@ -764,7 +771,7 @@ static void t5_U( const bool thorough )
       if( !mine() ) continue;
       snprintf( b, sizeof b, "\\U%08lx", v );
       check_grammar( g, b );
-      if( ( v & 0xFFFF ) == 0 && tick() ) return;
+      if( tick_every( 16 ) ) return;
    }
    // most of these are refused by an exception (about 5 us each), hence the thinner alphabet in the quick tier
    for_strings( thorough ? "0178dDefF" : "018dfF", 8, [ & ]( const std::string& d ) { check_grammar( g, "\\U" + d ); } );
@@ -793,27 +800,31 @@ static void t6_j( const bool thorough )
       for( const unsigned a : B13 )
          for( const unsigned c : B13 )
             if( mine() ) check_grammar( g, "\\u" + hex4( a ) + "\\u" + hex4( s ) + "\\u" + hex4( c ) );
-      if( ( s & 0x3F ) == 0 && tick() ) return;
+      if( tick_every( 16 ) ) return;
    }
-   // pairs
+   // pairs; pass 0: surrogate x surrogate, boundary x all, all x boundary (both tiers);
+   //        pass 1 (thorough): every remaining pair - a deadline can only cut into this remainder
    std::string in = "\\u0000\\u0000";
    static const char* const lc = "0123456789abcdef";
-   for( unsigned a = 0; a < 65536; ++a ) {
-      if( !mine_outer( a ) ) continue;
-      const bool a_sur = a >= 0xD800 && a <= 0xDFFF;
-      const bool a_bnd = std::find( B13.begin(), B13.end(), a ) != B13.end();
-      for( int k = 0; k < 4; ++k ) in[ 2 + k ] = lc[ ( a >> ( 12 - 4 * k ) ) & 15 ];
-      for( unsigned b = 0; b < 65536; ++b ) {
-         if( !thorough ) {
+   std::vector< bool > is_bnd( 65536, false );
+   for( const unsigned v : B13 ) is_bnd[ v ] = true;
+   for( int pass = 0; pass < ( thorough ? 2 : 1 ); ++pass ) {
+      for( unsigned a = 0; a < 65536; ++a ) {
+         if( !mine_outer( a ) ) continue;
+         const bool a_sur = a >= 0xD800 && a <= 0xDFFF;
+         for( int k = 0; k < 4; ++k ) in[ 2 + k ] = lc[ ( a >> ( 12 - 4 * k ) ) & 15 ];
+         for( unsigned b = 0; b < 65536; ++b ) {
             const bool b_sur = b >= 0xD800 && b <= 0xDFFF;
-            if( !( a_bnd || ( a_sur && b_sur ) || std::find( B13.begin(), B13.end(), b ) != B13.end() ) ) continue;
+            const bool in_pass0 = is_bnd[ a ] || is_bnd[ b ] || ( a_sur && b_sur );
+            if( in_pass0 != ( pass == 0 ) ) continue;
+            for( int k = 0; k < 4; ++k ) in[ 8 + k ] = lc[ ( b >> ( 12 - 4 * k ) ) & 15 ];
+            check_grammar( g, in );
          }
-         for( int k = 0; k < 4; ++k ) in[ 8 + k ] = lc[ ( b >> ( 12 - 4 * k ) ) & 15 ];
-         check_grammar( g, in );
+         if( tick() ) return;
       }
-      if( ( a & 0xF ) == 0 && tick() ) return;
+      if( pass == 0 ) vf::count( "unescape_j.all_surrogate_x_surrogate_pairs_done", 1 );
    }
-   vf::count( thorough ? "unescape_j.all_2^32_pairs_of_escapes_done" : "unescape_j.all_surrogate_x_surrogate_pairs_done", 1 );
+   if( thorough ) vf::count( "unescape_j.all_2^32_pairs_of_escapes_done", 1 );
 }
 
 // all sequences of 1..maxlen pieces
@@ -938,6 +949,10 @@ int main( int argc, char** argv )
       vf::count( name, long( ( vf::elapsed() - t_prev ) * 1000 ) );
       t_prev = vf::elapsed();
    };
+   // the six sample runs above are illustrations, not part of the enumerated domain
+   vf::st.evaluations = 0;
+   n_accept = n_reject_cp = n_reject_lang = n_reject_by_exception = n_reject_by_false = 0;
+
    t2_unhex();
    lap( "ms.t2_unhex" );
    if( !g_stop ) t3_x();
